@@ -42,7 +42,8 @@ from specs import resolver_spec as rs
 
 ID = 'C02'
 LEVEL = 'other'
-P_TARGETS = ['cgsmiles.graph_utils:merge_graphs', 'cgsmiles.resolve:MoleculeResolver.resolve_disconnected_molecule', 'cgsmiles.pysmiles_utils:rebuild_h_atoms', 'cgsmiles.resolve:MoleculeResolver.squash_atoms']
+P_TARGETS = ['cgsmiles.graph_utils:merge_graphs', 'cgsmiles.resolve:MoleculeResolver.resolve_disconnected_molecule', 'cgsmiles.pysmiles_utils:rebuild_h_atoms', 'cgsmiles.resolve:MoleculeResolver.squash_atoms',
+             'cgsmiles.graph_utils:annotate_fragments', 'cgsmiles.resolve:MoleculeResolver.resolve']
 BUDGET = {'quick': 30.0, 'thorough': 400.0}
 CHUNK = 40
 BOUNDS = {
